@@ -37,7 +37,7 @@ def bounds(tier):
 
 def judge(kind, cards, style, audit_type, thr, feats=None):
     try:
-        w = s3.workflow(kind, cards, style, audit_type=audit_type)
+        w = s3.workflow(kind, cards, style, audit_type=audit_type, via_all=(thr % 2 == 1))
     except Exception as e:  # noqa
         return [(f"C06|{kind}|workflow-exception|{type(e).__name__}", f"preparation raised {type(e).__name__}: {str(e)[:80]}")], None
     if not w["under"]:
@@ -50,6 +50,10 @@ def judge(kind, cards, style, audit_type, thr, feats=None):
             feats.add("nonpositive_margin(skipped)")
         return [], None
     con.sample_threshold = thr
+    # both margin routes (per assertion / set_all_margins_from_cvrs) must leave the right bound in the test
+    u_after_margin = ua if audit_type == Audit.AUDIT_TYPE.POLLING else 2 / (2 - v / ua)
+    if abs(asn.test.u - u_after_margin) > 1e-12 * u_after_margin:
+        return [(f"C06|{kind}|{audit_type}|u-after-setting-margin", f"after setting the margin from the CVRs test.u = {asn.test.u}, expected {u_after_margin} (margin {v})")], None
     seen = []
     orig = asn.overstatement_assorter
 
